@@ -1,6 +1,8 @@
 // Harness for property C15 (interrupts).  Two kinds of input lines:
 //
 //	case <api> <k> <v> <mode> <pre> <w> | <program>
+//	    api   run|call|try|errstr   (errstr: RunString throws an object whose toString() is the program; the host then
+//	                          calls err.Error() while idle)
 //	    api   run|call|try    outermost API call: RunString(program), Callable(main), or Runtime.Try around a Go-side
 //	                          property read whose getter is the program (Try does not drain the job queue)
 //	    k     0..             the k-th probe() calls Interrupt(v) (0 = never)
@@ -96,6 +98,8 @@ func (p *parser) stmt() stmt {
 		return stmt{op: 'Q', b1: p.block()}
 	case "A":
 		return stmt{op: 'A', b1: p.block(), b2: p.block()}
+	case "B":
+		return stmt{op: 'B', b1: p.block(), b2: p.block(), b3: p.block()}
 	case "F":
 		n, brk := p.num(), p.num()
 		return stmt{op: 'F', n: n, a: brk, b1: p.block(), b2: p.block(), b3: p.block()}
@@ -111,7 +115,7 @@ type renderer struct {
 	nested []string // sources of nested RunString bodies, by id
 }
 
-const nKinds = 19
+const nKinds = 21
 
 func (r *renderer) block(ss []stmt) string {
 	var b strings.Builder
@@ -146,6 +150,8 @@ func (r *renderer) stmt(s stmt) string {
 		return "Promise.resolve().then(function(){" + r.block(s.b1) + "});"
 	case 'A':
 		return "(async function(){" + r.block(s.b1) + "await 1;" + r.block(s.b2) + "})();"
+	case 'B': // async chain of depth 2: the outer async function awaits the inner one's promise
+		return "(async function zzOuter(){await (async function zzInner(){" + r.block(s.b1) + "await 1;" + r.block(s.b2) + "})();" + r.block(s.b3) + "})();"
 	case 'F':
 		r.uniq++
 		v := fmt.Sprintf("j%d", r.uniq)
@@ -198,6 +204,9 @@ func (r *renderer) stmt(s stmt) string {
 			return "invoke(function(){" + body + "});"
 		case 18: // doubly wrapped: %w around errors.Join around %w
 			return "callGo(function(){" + body + "},4);"
+		case 19, 20: // Go function formats the *Exception a callback threw: err.Error() (19) / ex.String() (20); the thrown
+			// object's toString() is script (the body).  Exception.valueString swallows an uncatchable raised in there.
+			return fmt.Sprintf("errStr(function(){throw {toString(){%sreturn 'boom'}}},%d);", body, s.a%nKinds-19)
 		}
 	}
 	panic("render: bad stmt")
@@ -314,6 +323,20 @@ func (e *env) install() {
 		}
 		return goja.Undefined()
 	})
+	rt.Set("errStr", func(call goja.FunctionCall) goja.Value {
+		f, ok := goja.AssertFunction(call.Argument(0))
+		if !ok {
+			panic("errStr: not a function")
+		}
+		if _, err := f(goja.Undefined()); err != nil {
+			if ex, isEx := err.(*goja.Exception); isEx && call.Argument(1).ToInteger() != 0 {
+				_ = ex.String()
+			} else {
+				_ = err.Error() // e.g. logging the failure of a callback
+			}
+		}
+		return goja.Undefined()
+	})
 	// reflection-wrapped host function that RETURNS the annotated error (goja re-panics it)
 	rt.Set("invoke", func(fn goja.Callable) error {
 		if _, err := fn(nil); err != nil {
@@ -321,6 +344,55 @@ func (e *env) install() {
 		}
 		return nil
 	})
+}
+
+// postCheck: after everything else, the runtime must be indistinguishable from a fresh one as far as stack traces go
+// (no phantom frames of an aborted run) and the VM must not point at an async runner.
+const traceSrc = `function zzPlain(){ return new Error("x").stack }
+async function zzAsync(){ return new Error("y").stack }
+var zzS1 = zzPlain(); var zzS2 = ""; zzAsync().then(function(s){ zzS2 = s });
+var zzS3 = zzCap();
+(async function zzA2(){ await 1; zzS4 = zzPlain() + "|" + zzCap() })(); var zzS4 = "";`
+
+func traceOf(rt *goja.Runtime) string {
+	rt.Set("zzCap", func(goja.FunctionCall) goja.Value {
+		var b strings.Builder
+		for _, fr := range rt.CaptureCallStack(0, nil) {
+			b.WriteString(fr.FuncName())
+			b.WriteString("@")
+			b.WriteString(fr.Position().String())
+			b.WriteString(";")
+		}
+		return rt.ToValue(b.String())
+	})
+	if _, err := rt.RunString(traceSrc); err != nil {
+		return "ERR " + common.OneLine(err.Error())
+	}
+	out := ""
+	for _, n := range []string{"zzS1", "zzS2", "zzS3", "zzS4"} {
+		out += n + "=" + common.OneLine(rt.Get(n).String()) + "\n"
+	}
+	return out
+}
+
+var freshTrace string
+
+func postCheck(rt *goja.Runtime) string {
+	if freshTrace == "" {
+		freshTrace = traceOf(goja.New())
+	}
+	stale := !goja.VerifC15AsyncIdle(rt) // white box
+	t := traceOf(rt)                      // black box: new Error().stack (plain, async, after await) and CaptureCallStack
+	stale = stale || !goja.VerifC15AsyncIdle(rt)
+	switch {
+	case t != freshTrace && stale:
+		return "stale-async-runner+phantom-stack-frames:" + strings.Join(strings.Fields(common.OneLine(t)), "_")
+	case t != freshTrace:
+		return "phantom-stack-frames:" + strings.Join(strings.Fields(common.OneLine(t)), "_")
+	case stale:
+		return "stale-async-runner"
+	}
+	return "ok"
 }
 
 func runCase(f []string, prog string) string {
@@ -364,7 +436,18 @@ func runCase(f []string, prog string) string {
 		e.rt.ClearInterrupt()
 	}
 	var err error
+	resOverride := ""
 	switch api {
+	case "errstr":
+		// depth 0: the host formats the exception the call returned; the thrown object's toString() is the program
+		_, err = e.rt.RunString("throw {toString(){" + src + "return 'boom'}}")
+		if ex, isEx := err.(*goja.Exception); isEx {
+			if strings.HasPrefix(ex.Error(), "boom") {
+				resOverride = "errstr:boom"
+			} else {
+				resOverride = "errstr:placeholder"
+			}
+		}
 	case "call":
 		_, err = callable(goja.Undefined())
 	case "try":
@@ -387,12 +470,16 @@ func runCase(f []string, prog string) string {
 		_, err = e.rt.RunString(src)
 	}
 	res := classify(err)
+	if resOverride != "" {
+		res = resOverride
+	}
 	log1 := e.takeLog()
 	st1 := e.state()
 	// reusability / dropped queue: a follow-up call on the same runtime
 	e.k = 0
 	_, err2 := e.rt.RunString("ev(999)")
-	return fmt.Sprintf("res=%s log=%s st=%s after=%s log2=%s st2=%s", res, log1, st1, classify(err2), e.takeLog(), e.state())
+	after, log2, st2 := classify(err2), e.takeLog(), e.state()
+	return fmt.Sprintf("res=%s log=%s st=%s after=%s log2=%s st2=%s post=%s", res, log1, st1, after, log2, st2, postCheck(e.rt))
 }
 
 // ---------------------------------------------------------------- asynchronous soak
@@ -412,6 +499,8 @@ var soakScripts = []struct{ name, src string }{
 	{"nested", "for(;;){nestedLoop()}"},
 	{"callgo", "for(;;){callGoTick(function(){try{tick()}finally{tick()}})}"},
 	{"async", "async function f(){for(;;){try{tick();await 1}finally{tick()}}};f();"},
+	{"asyncchain", "async function inner(){for(;;){tick();await 1}};async function outer(){try{await inner()}finally{bad()}};outer()"},
+	{"asyncchain3", "async function a(){for(;;){await 1;tick()}};async function b(){await a();bad()};async function c(){try{await b()}catch(e){bad()}};c()"},
 	{"emptyloop", "for(;;){}"},
 	{"catchloop", "for(;;){try{tick();throw 1}catch(e){tick()}}"},
 }
@@ -548,6 +637,11 @@ func soak(f []string) string {
 			<-fired
 			forceNew = true
 		}
+		if !forceNew && err == nil {
+			if pc := postCheck(rt); pc != "ok" {
+				fail("post", fmt.Sprintf("round %d %s: %s", i, sc.name, pc))
+			}
+		}
 		if err != nil || val.ToInteger() != 42 || atomic.LoadInt64(&ticks) != before+1 || atomic.LoadInt64(&bads) != 0 {
 			fail("reuse", fmt.Sprintf("round %d %s: runtime not reusable: %v err=%v ticks+%d", i, sc.name, val, err, atomic.LoadInt64(&ticks)-before))
 		}
@@ -617,7 +711,8 @@ func tickCase(f []string) string {
 	t1 := ticks
 	n = -1
 	_, err2 := rt.RunString("tick()")
-	return fmt.Sprintf("res=%s ticks=%d bad=%d st=%d/%d/%d/%d after=%s ticks2=%d", classify(err), t1, bads, fl, jobs, cs, ts, classify(err2), ticks-t1)
+	t2 := ticks - t1
+	return fmt.Sprintf("res=%s ticks=%d bad=%d st=%d/%d/%d/%d after=%s ticks2=%d post=%s", classify(err), t1, bads, fl, jobs, cs, ts, classify(err2), t2, postCheck(rt))
 }
 
 func main() {
